@@ -243,7 +243,7 @@ def run(tier, seed, model_ok):
             if g.dup: continue
             same = (strip_msgs(a) == strip_msgs(b)) if a.startswith('OK') or b.startswith('OK') else (a.startswith('ERR') and b.startswith('ERR'))
             if not same:
-                vio.append({'what': 'build_file of the tree differs from build_str of the flattened text', 'main': main,
+                vio.append({'what': 'build_file of the tree differs from build_str of the flattened text', 'main': main, 'main_as_passed': g.spelled,
                             'files': {os.path.relpath(p, g.root): l for p, l in g.files.items()}, 'caller_dirs': [os.path.relpath(d, g.root) for d in g.caller],
                             'flattened': flat, 'impl': a[:200], 'expected(flattened)': b[:200], 'key': 'paste'})
         a = impl.get('missingf', '')
